@@ -72,7 +72,33 @@ pub fn pattern(len: usize, seed: usize) -> Vec<u8> {
     (0..len).map(|i| (seed + 7 * i + 13 * (i / 256)) as u8).collect()
 }
 
+/// Pseudo-random content (`^len.seed.bits`): a 32-bit linear congruential generator started at
+/// `(seed + 1)·2654435761`; byte i = the top `bits` bits of the state after i + 1 steps.  With
+/// `bits = 8` deflate cannot shrink it (a "stored" stream: 5 bytes longer than the content); smaller
+/// alphabets give Huffman-coded streams of about `bits/8` of the length.  Same definition:
+/// `FsText.noise` (lean/PhysisModel/Base/FsText.lean).
+pub fn noise(len: usize, seed: usize, bits: usize) -> Vec<u8> {
+    let mut s: u32 = (seed as u32).wrapping_add(1).wrapping_mul(2654435761);
+    (0..len)
+        .map(|_| {
+            s = s.wrapping_mul(1664525).wrapping_add(1013904223);
+            ((s >> 24) as u8) >> (8 - bits)
+        })
+        .collect()
+}
+
 pub fn parse_content(s: &str) -> Option<Vec<u8>> {
+    if let Some(r) = s.strip_prefix('^') {
+        let f: Vec<&str> = r.split('.').collect();
+        if f.len() != 3 {
+            return None;
+        }
+        let bits: usize = f[2].parse().ok()?;
+        if !(1..=8).contains(&bits) {
+            return None;
+        }
+        return Some(noise(f[0].parse().ok()?, f[1].parse().ok()?, bits));
+    }
     if let Some(r) = s.strip_prefix('~') {
         let (a, b) = r.split_once('.')?;
         return Some(pattern(a.parse().ok()?, b.parse().ok()?));
